@@ -16,6 +16,11 @@ HAVE_F128 = hasattr(np, "float128")
 DT = [d for d in history1.DTYPES if d != "float128" or HAVE_F128]
 
 
+def rng_axis(case, x) -> int:
+    """a deterministic axis choice for N-d steps (depends on the case only)"""
+    return (len(case["rows"]) + len(case["steps"])) % x.ndim
+
+
 def np_kind(k: str) -> np.dtype:
     return np.dtype({"pyint": "int64", "pyfloat": "float64"}.get(k, k))
 
@@ -53,7 +58,8 @@ class C13(Hist1Prop):
         dt = rng.choice([None, None, "int16", "int32", "int64", "float32", "float64"])
         ops = [rng.choice(["mul_int", "mul_float", "div", "normalize", "add_int", "add_float", "projection",
                            "fill_pyint", "fill_pyfloat", "fill_float32", "fill_float16", "fill_int32", "fill_n_int", "fill_n_float32",
-                           "fill_n_float64"]) for _ in range(rng.randint(0, 3))]
+                           "fill_n_float64", "accumulate", "accumulate", "set_freq_float", "set_freq_int", "set_err2_float",
+                           "div_longdouble", "idiv_longdouble", "mul_float32"]) for _ in range(rng.randint(0, 3))]
         return {"kind": "nd_dtype", "d": d, "rows": rows, "wk": wk, "ws": ws, "dtype": dt, "steps": ops,
                 "ops": [], "tags": ["nd", f"d:{d}", f"weights:{wk}", f"dtype:{dt}"]}
 
@@ -114,6 +120,22 @@ class C13(Hist1Prop):
                             added = float(wv)
                         out["steps"].append({"op": st, "ret": "ok", "before": before, "after": snap(x), "cell0": [f0, float(x.frequencies[cell]), added]})
                         continue
+                    elif st == "accumulate" and x.ndim < 2:
+                        continue
+                    elif st == "accumulate":
+                        x = x.accumulate(rng_axis(case, x))
+                    elif st == "set_freq_float":
+                        x.frequencies = x.frequencies / 8
+                    elif st == "set_freq_int":
+                        x.frequencies = np.ones(x.shape, dtype=np.int64)
+                    elif st == "set_err2_float":
+                        x.errors2 = x.errors2 * 0.25
+                    elif st == "div_longdouble":
+                        x = x / np.longdouble(2)
+                    elif st == "idiv_longdouble":
+                        x /= np.longdouble(2)
+                    elif st == "mul_float32":
+                        x = x * np.float32(1.5)
                     elif st == "projection" and x.ndim < 2:
                         continue          # a 1-D projection has no further projections
                     elif st == "projection":
@@ -160,14 +182,17 @@ class C13(Hist1Prop):
                 if stp["op"] in ("fill_pyint", "fill_int32", "fill_n_int") and kb == "i" and ka != "i":
                     fails.append(f"not_integral: N-d {stp['op']} on {b['dtype']} gave {a['dtype']} (integer weights must keep an integer histogram)")
                 continue
-            if stp["op"] in ("mul_float", "div", "normalize", "add_float") and ka != "f":
+            if stp["op"] in ("mul_float", "div", "normalize", "add_float", "set_freq_float", "set_err2_float", "div_longdouble",
+                             "idiv_longdouble", "mul_float32") and ka != "f":
                 fails.append(f"truncated: N-d {stp['op']} on {b['dtype']} gave {a['dtype']} (must be float)")
-            if stp["op"] in ("mul_int", "add_int", "projection") and kb == "i" and ka != "i":
+            if stp["op"] in ("mul_int", "add_int", "projection", "accumulate", "set_freq_int") and kb == "i" and ka != "i":
                 fails.append(f"not_integral: N-d {stp['op']} on {b['dtype']} gave {a['dtype']} (must stay integer)")
             if stp["op"] in ("add_int", "add_float") and a["dtype"] != str(np.promote_types(b["dtype"], stp["other"])):
                 fails.append(f"promotion: {b['dtype']} + {stp['other']} gave {a['dtype']}, numpy promotes to {np.promote_types(b['dtype'], stp['other'])}")
             if stp["op"] == "mul_float" and any(abs(y - 1.5 * x) > 1e-6 * max(1, abs(y)) for x, y in zip(b["freq"], a["freq"])):
                 fails.append(f"truncated: N-d * 1.5 turned {b['freq']} into {a['freq']}")
+            if stp["op"] == "set_freq_float" and any(abs(y - x / 8) > 1e-6 * max(1, abs(y)) for x, y in zip(b["freq"], a["freq"])):
+                fails.append(f"truncated: N-d `h.frequencies = h.frequencies / 8` turned {b['freq']} into {a['freq']}")
             if stp["op"] == "div" and any(abs(y - x / 2) > 1e-6 * max(1, abs(y)) for x, y in zip(b["freq"], a["freq"])):
                 fails.append(f"truncated: N-d / 2 turned {b['freq']} into {a['freq']}")
         return fails[:6]
